@@ -9,7 +9,9 @@ func init() {
 		Outside:     []string{"replica selection (pickReplica, +slave/+sdown/+reboot events), SendToReplicas mode with two parallel _switchTarget calls", "more than two sentinels / data nodes"},
 		Bounds:      map[string]any{"quick": "2 sentinels × reported master × role sequences × dial failure; one +switch-master event", "thorough": "delay bound 1"},
 		specs: func(tier string) []specRef {
-			return []specRef{hsd(rootPkg, "VerifC23_sentinel", nil, q(tier, 0, 1), 3000000, 3000, "refreshed", "refreshfailed", "switched", "done")}
+			return []specRef{hsd(rootPkg, "VerifC23_sentinel", nil, q(tier, 0, 1), 3000000, 3000, "refreshed", "refreshfailed", "switched", "done"),
+				// SendToReplicas: master and replica are switched concurrently, then the replica is promoted
+				hsd(rootPkg, "VerifC23_replicas", nil, q(tier, 1, 2), 3000000, 3000, "refreshed", "switched")}
 		},
 	}
 }
